@@ -405,9 +405,9 @@ pub fn run_check(ctx: &mut Ctx) {
         ctx.health(false, "mos binary not built (MOS_BIN)");
         return;
     }
-    let n = ctx.tier.pick(6400, 160_000);
+    let n = ctx.tier.pick(12_000, 240_000);
     ctx.campaign_parallel("all-occurrences", n, 16, strategy, prop, to_json);
-    let n = ctx.tier.pick(400, 4_000);
+    let n = ctx.tier.pick(800, 8_000);
     ctx.campaign_parallel("across-files", n, 16, crate::props::c15::multi_strategy, prop_multi, crate::props::c15::multi_to_json);
     let k = ctx.label_count("same-range-in-both-files");
     ctx.health(k > 0, "no case with an occurrence at the same range in both files");
